@@ -229,4 +229,5 @@ pub const PROP: Prop = Prop {
         "native runs detect use of a freed node through a canary; the thorough tier replays a sample under Miri for exact detection",
     ],
     nondeterminism_is_violation: false,
+    hang_is_violation: true,
 };
